@@ -144,7 +144,8 @@ type c17Runner struct {
 // probeFixes finds out by two probes on the real code which proposed repairs the tree under test
 // carries: ec=1 — GetPart of a part none of whose shards exists answers not-found
 // (fixes/C15-ec-absent-part-not-found.patch); parity=1 — a missing parity shard is healed with its
-// real content (fixes/C17-heal-parity-shards.patch). The driver selects the model variant accordingly.
+// real content (fixes/C17-heal-parity-shards.patch); trail, fewopen: see below. The driver selects the model
+// variant accordingly.
 func (rn *c17Runner) probeFixes() {
 	ctx := rn.ctx
 	dirs := []string{filepath.Join(rn.dir, "probe0"), filepath.Join(rn.dir, "probe1")}
@@ -182,7 +183,37 @@ func (rn *c17Runner) probeFixes() {
 	if bytes.Equal(now, orig) {
 		parity = 1
 	}
-	rn.fixes = fmt.Sprintf("fixes ec=%d parity=%d", ecFix, parity)
+	// trail=1 — frame-sized garbage behind the last frame of one shard no longer fails the read
+	// (fixes/C17-trailing-garbage-is-a-bad-shard.patch)
+	shardFile := func(i int, id partstore.PartId) string { return filepath.Join(dirs[i], hex.EncodeToString(id.Bytes())) }
+	id2 := *verifx.Must(partstore.NewRandomPartId())
+	verifx.Check(ec.PutPart(ctx, nil, id2, bytes.NewReader([]byte("probe"))))
+	f0 := verifx.Must(os.ReadFile(shardFile(0, id2)))
+	verifx.Check(os.WriteFile(shardFile(0, id2), append(append([]byte(nil), f0...), bytes.Repeat([]byte{0xab}, 48)...), 0o600))
+	trail := 0
+	if rc, err := ec.GetPart(ctx, nil, id2); err == nil {
+		if _, rerr := io.ReadAll(rc); rerr == nil {
+			trail = 1
+		}
+		_ = rc.Close()
+	}
+	// fewopen=1 — GetPart fails at once when fewer than d shards can be opened
+	// (fixes/C17-too-few-readable-shards-is-an-error.patch)
+	id3 := *verifx.Must(partstore.NewRandomPartId())
+	verifx.Check(ec.PutPart(ctx, nil, id3, bytes.NewReader([]byte("probe"))))
+	for i := range dirs {
+		b := verifx.Must(os.ReadFile(shardFile(i, id3)))
+		b[0] ^= 1
+		verifx.Check(os.WriteFile(shardFile(i, id3), b, 0o600))
+	}
+	fewopen := 0
+	if rc, err := ec.GetPart(ctx, nil, id3); err != nil {
+		fewopen = 1
+	} else {
+		_, _ = io.ReadAll(rc)
+		_ = rc.Close()
+	}
+	rn.fixes = fmt.Sprintf("fixes ec=%d parity=%d trail=%d fewopen=%d", ecFix, parity, trail, fewopen)
 }
 
 func (rn *c17Runner) guard(what string, fn func()) {
